@@ -848,19 +848,34 @@ func (x *Exec) pureFuncApp(ce *CEnv, f *ssa.Function, fc *FuncContract, args []*
 		terms = append(terms, t)
 	}
 	res := f.Signature.Results()
-	if res.Len() != 1 {
-		cfail("pure function %s must have exactly one result to be used in specifications", fnKey(f))
+	if res.Len() == 0 {
+		cfail("pure function %s has no result", fnKey(f))
 	}
-	rs := x.so.SortOf(res.At(0).Type())
-	x.declareUF(name, sorts, rs)
-	out := &Val{Typ: res.At(0).Type(), T: x.b.App(name, rs, terms...)}
+	var out *Val
+	if res.Len() == 1 {
+		rs := x.so.SortOf(res.At(0).Type())
+		x.declareUF(name, sorts, rs)
+		out = &Val{Typ: res.At(0).Type(), T: x.b.App(name, rs, terms...)}
+	} else {
+		out = &Val{Typ: res}
+		for i := 0; i < res.Len(); i++ {
+			rs := x.so.SortOf(res.At(i).Type())
+			nm := fmt.Sprintf("%s_r%d", name, i)
+			x.declareUF(nm, sorts, rs)
+			out.Tup = append(out.Tup, &Val{Typ: res.At(i).Type(), T: x.b.App(nm, rs, terms...)})
+		}
+	}
+	outT := out.T
+	if outT == nil {
+		outT = out.Tup[0].T
+	}
 	// instantiate the callee's contract for this application: requires ==> ensures
-	if ce.depth < 3 && !out.T.Bound {
+	if ce.depth < 3 && !outT.Bound {
 		gid := 0
 		if ce.guard != nil {
 			gid = ce.guard.ID
 		}
-		key := fmt.Sprintf("pfapp:%d:%d", out.T.ID, gid)
+		key := fmt.Sprintf("pfapp:%d:%d", outT.ID, gid)
 		if !x.ufDecl[key] {
 			x.ufDecl[key] = true
 			vars := map[string]*Val{}
